@@ -53,7 +53,7 @@ def run_scenario(sc: dict[str, Any]) -> dict[str, Any]:
                     await stopped.wait()
             finally:
                 sim.rec('d.exit', loop=OP, name=name)
-        if sc['nobj']:
+        if sc['nobj'] and not sc.get('nodaemon'):
             kopf.daemon(GROUP, VERSION, PLURAL, registry=reg, id='d', cancellation_backoff=1, cancellation_timeout=1)(d)
         if sc.get('fault') and sc['fault'][0] == 'relogin':
             sim.srv.valid_gens = set()
@@ -61,7 +61,10 @@ def run_scenario(sc: dict[str, Any]) -> dict[str, Any]:
         kw: dict[str, Any] = dict(clusterwide=False, namespaces=['ns*'])
         if sc['peering']:
             kw = dict(clusterwide=True, peering_name='default', priority=1, identity=OP)
-        op = sim.operator(OP, reg, sim.settings(peering__lifetime=20, watching__reconnect_backoff=1, networking__error_backoffs=[1]), **kw)
+        tune = dict(peering__lifetime=20, watching__reconnect_backoff=1, networking__error_backoffs=[1])
+        if sc.get('wlimit'):
+            tune['queueing__worker_limit'] = sc['wlimit']
+        op = sim.operator(OP, reg, sim.settings(**tune), **kw)
 
         async def watch_ready() -> None:
             await op.ready_flag.wait()
@@ -222,6 +225,7 @@ def gen_scenarios(seed: int, n: int) -> list[dict[str, Any]]:
         if fault and fault[0] == 'relogin' and nobj == 0:
             nobj = 1
         hdur = rnd.choice([0, 0, 3])
+        wlimit = rnd.choice([None, None, None, 1, 2])
         ns2 = (not peering) and rnd.random() < 0.4
         nsdel = None
         edits = [(s_total + 3, 'p0')] if nobj else []
@@ -231,7 +235,8 @@ def gen_scenarios(seed: int, n: int) -> list[dict[str, Any]]:
         end = max(t, fault[1] if fault else 0, s_total) + bound + 25
         out.append({'id': f'life-{seed}-{k}', 'startup': startup, 'cleanup': cleanup, 'sdur': sdur, 'cdur': cdur, 'peering': peering,
                     'nobj': nobj, 'dmode': rnd.choice(['obey', 'cancel']), 'trigger': trigger, 'fault': fault, 'bound': bound, 'end': end,
-                    'edits': edits, 'hdur': hdur, 'ns2': ns2, 'nsdel': nsdel})
+                    'edits': edits + ([(e[0], 'p1') for e in edits if e[1] == 'p0'] if nobj > 1 else []), 'hdur': hdur, 'ns2': ns2, 'nsdel': nsdel,
+                    'wlimit': wlimit})
     return out
 
 
@@ -244,4 +249,11 @@ def crafted() -> list[dict[str, Any]]:
             out.append({'id': f'crafted-nsdel-{kind}-{d_edit}-{d_stop}', 'startup': [], 'cleanup': [['ok']], 'sdur': 0, 'cdur': 1, 'peering': False,
                         'nobj': 1, 'dmode': 'obey', 'trigger': (kind, t + d_stop), 'fault': None, 'bound': 20, 'end': 60,
                         'edits': [(t - d_edit, 'q0')], 'hdur': 3, 'ns2': True, 'nsdel': t})
+    # a saturated worker limit at the moment of the stop: handlers in flight on `limit` objects, more objects queued
+    for kind in ('stop', 'cancel'):
+        for lim, d_stop in ((1, 1), (1, 0), (2, 1)):
+            t = 10
+            out.append({'id': f'crafted-wlimit-{kind}-{lim}-{d_stop}', 'startup': [], 'cleanup': [['ok']], 'sdur': 0, 'cdur': 1, 'peering': False,
+                        'nobj': 3, 'dmode': 'obey', 'trigger': (kind, t + d_stop), 'fault': None, 'bound': 24, 'end': 70,
+                        'edits': [(t, 'p0'), (t, 'p1'), (t, 'p2')], 'hdur': 4, 'ns2': False, 'nsdel': None, 'wlimit': lim, 'nodaemon': True})
     return out
